@@ -693,6 +693,9 @@ func (db *RockDB) SetRange(ts int64, rawKey []byte, offset int, value []byte) (i
 	if len(value) == 0 {
 		return 0, nil
 	}
+	if offset < 0 {
+		return 0, errOffsetOutOfRange
+	}
 	if len(value)+offset > MaxValueSize {
 		return 0, errValueSize
 	}
